@@ -158,6 +158,8 @@ class SimTransport:
         if not end.alive or self.disconnecting or not data:
             return
         end.net.sim.stat_bytes += len(data)
+        if end.net.sim.on_write is not None:
+            end.net.sim.on_write(end, bytes(data))
         end.push_out(bytes(data))
         if self.producer is not None and self.streamingProducer:
             if end.sendbuf_len() > end.net.high_water:
@@ -690,6 +692,7 @@ class Sim:
         self.on_link = None
         self.on_end_made = None
         self.on_listen = None
+        self.on_write = None     # callable(end, data) at transport.write time
         self.app_events = None   # callable() -> list of (label, fn)
         self.fault_events = None  # callable() -> list of (label, fn)
         self.after_step = None   # callable() ; oracle hook
